@@ -195,20 +195,28 @@ impl InputBuffer {
         if self.mod_chars.is_empty() {
             return;
         }
-        // single pass algorithm
-        // by default continuity is 1 codepoint
-        // go from the back and set it prev + 1 when chars are compatible
-        self.mod_cat_continuity.resize(self.mod_chars.len(), 1);
-        let mut cat = *self.mod_cat.last().unwrap_or(&CategoryType::all());
-        for i in (0..self.mod_cat.len() - 1).rev() {
-            let cur = self.mod_cat[i];
-            let common = cur & cat;
-            if !common.is_empty() {
-                self.mod_cat_continuity[i] = self.mod_cat_continuity[i + 1] + 1;
-                cat = common;
-            } else {
-                cat = cur;
+        // A run is determined left to right: it starts with all categories of its first
+        // character and is extended while the next character shares at least one category
+        // with everything in the run so far. Going from the back instead would make the
+        // length of a run depend on the characters which follow it.
+        let len = self.mod_cat.len();
+        self.mod_cat_continuity.resize(len, 1);
+        let mut start = 0;
+        while start < len {
+            let mut common = self.mod_cat[start];
+            let mut end = start + 1;
+            while end < len {
+                let next = common & self.mod_cat[end];
+                if next.is_empty() {
+                    break;
+                }
+                common = next;
+                end += 1;
             }
+            for i in start..end {
+                self.mod_cat_continuity[i] = end - i;
+            }
+            start = end;
         }
     }
 
